@@ -27,9 +27,6 @@ def run(path):
 
 # refactorings outside the verified forms even after the second-chance normal form (DESIGN A.7): reported as "unproven"
 KNOWN_UNPROVEN = {
-    "ben31-1.diff": "routing test written as `if (pair := table.get(tag)) is not None` (walrus + dict.get) instead of `tag in table` / `table[tag]`",
-    "ben31-5.diff": "Chart.__str__ built from a private generator consumed by str.join (a generator outside a for loop is outside the analysed subset)",
-    "ben32-4.diff": "DictReprTruncatedSequencesMixin.__repr__ built from a private generator consumed by str.join",
     "ben14-1.diff": "grouping rewritten as a different algorithm (for right in range(1, n+1) with continue) inside a generator: not in the S1 family",
     "ben22-4.diff": "grouping rewritten as a third algorithm (for i in range(1, n) with continue, a second yield after the loop) inside a generator",
 }
